@@ -3,15 +3,16 @@
 // replayed on fresh solver objects, checked after every operation against a piecewise closed-form model.
 #include "solver.hpp"
 #include <memory>
+#include <limits>
 #include <chrono>
 using namespace vf;
 
-enum OpKind { EV0, EV3, EV7, TG0, TG1, TG2, TG3, TG4, ANY_OFF, ANY_ON, ST_RKF45, ST_RK4, ST_MSADAMS, ADAPT_TOGGLE, TOL_TOGGLE, MOVE_CTOR, MOVE_ASSIGN_FRESH, MOVE_ASSIGN_USED, REINIT, NOPS };
-static const char* OPNAME[] = {"Evolve(0)", "Evolve(0.3)", "Evolve(0.7)", "toggle-Coherent", "toggle-NonCoherent", "toggle-OtherRho", "toggle-GammaScalar", "toggle-OtherScalar", "AnyNumerics(false)", "AnyNumerics(true)",
-                               "stepper-rkf45", "stepper-rk4", "stepper-msadams", "toggle-adaptive", "toggle-tolerance", "move-construct", "move-assign-into-fresh", "move-assign-into-used", "re-ini"};
+enum OpKind { EV0, EV3, EV7, EVS, TG0, TG1, TG2, TG3, TG4, ANY_OFF, ANY_ON, ST_RKF45, ST_RK4, ST_MSADAMS, ADAPT_TOGGLE, TOL_TOGGLE, HMIN_TOGGLE, MOVE_CTOR, MOVE_ASSIGN_FRESH, MOVE_ASSIGN_USED, REINIT, NOPS };
+static const char* OPNAME[] = {"Evolve(0)", "Evolve(0.3)", "Evolve(0.7)", "Evolve(5e-4)", "toggle-Coherent", "toggle-NonCoherent", "toggle-OtherRho", "toggle-GammaScalar", "toggle-OtherScalar", "AnyNumerics(false)", "AnyNumerics(true)",
+                               "stepper-rkf45", "stepper-rk4", "stepper-msadams", "toggle-adaptive", "toggle-tolerance", "toggle-h_min(1e-3)", "move-construct", "move-assign-into-fresh", "move-assign-into-used", "re-ini"};
 
 struct Model {
-  Problem P; double tini, t; std::vector<double> y; bool any; int stepper; bool adaptive; bool tight; int segments; double clock_slack;
+  Problem P; double tini, t; std::vector<double> y; bool any; int stepper; bool adaptive; bool tight; bool hmin_raised; int segments; double clock_slack;
 };
 
 static std::string hist_str(const std::vector<int>& h, int nsun) { std::string s = "nsun=" + std::to_string(nsun) + ":"; for (size_t i = 0; i < h.size(); i++) { if (i) s += ","; s += std::to_string(h[i]); } return s; }
@@ -29,7 +30,7 @@ static const gsl_odeiv2_step_type* steptype(int s) { return s == 0 ? gsl_odeiv2_
 static bool run_history(const std::vector<int>& h, int nsun, bool report) {
   Model m; m.P.nx = 2; m.P.d = nsun; m.P.nrho = 1; m.P.nsc = 1; m.P.family = 0; m.P.kappa = 0.3; m.P.kappa2 = 0.0;
   bool sw0[5] = {true, false, false, true, false}; for (int b = 0; b < 5; b++) m.P.sw[b] = sw0[b];
-  m.tini = 0.5; m.t = 0.5; m.y = probe_state(m.P, 0); m.any = true; m.stepper = 0; m.adaptive = true; m.tight = true; m.segments = 0; m.clock_slack = 0;
+  m.tini = 0.5; m.t = 0.5; m.y = probe_state(m.P, 0); m.any = true; m.stepper = 0; m.adaptive = true; m.tight = true; m.hmin_raised = false; m.segments = 0; m.clock_slack = 0;
   std::unique_ptr<Probe> cur(new Probe(m.P, m.tini));
   cur->Set_rel_error(1e-10); cur->Set_abs_error(1e-10); cur->Set_h(1e-4); cur->Set_NumSteps(400);
   cur->set_flat(m.y);
@@ -43,11 +44,15 @@ static bool run_history(const std::vector<int>& h, int nsun, bool report) {
     if (!enabled(m, op)) return false;
     count("transitions");
     switch (op) {
-      case EV0: case EV3: case EV7: {
-        double dt = op == EV0 ? 0.0 : (op == EV3 ? 0.3 : 0.7);
+      case EV0: case EV3: case EV7: case EVS: {
+        double dt = op == EV0 ? 0.0 : (op == EV3 ? 0.3 : (op == EV7 ? 0.7 : 5e-4));   // 5e-4 is shorter than the raised minimum step: the interval is still to be integrated
         std::vector<double> before = cur->get_flat(); long pre0 = cur->log.pre; cur->log.times.clear();
         try { cur->Evolve(dt); }
-        catch (const std::exception& ex) { viol(std::string("Evolve:throws:dt=") + (dt == 0 ? "0" : "positive") + (m.adaptive ? ":adaptive" : ":fixed"), i, ",\"what\":" + jstr(ex.what())); return true; }
+        catch (const std::exception& ex) {
+          // with the minimum step raised by the user the adaptive controller may be unable to meet the tolerance: reporting that is correct
+          if (m.hmin_raised && m.any && m.adaptive && dt > 0) { count("evolve_refused_under_raised_h_min"); return true; }
+          viol(std::string("Evolve:throws:dt=") + (dt == 0 ? "0" : "positive") + (m.adaptive ? ":adaptive" : ":fixed"), i, ",\"what\":" + jstr(ex.what())); return true;
+        }
         double t1 = m.t + dt;
         if (m.any) { Problem q = m.P; m.y = q.exact(m.y, m.t, t1); m.segments++; }
         m.t = t1;
@@ -76,6 +81,7 @@ static bool run_history(const std::vector<int>& h, int nsun, bool report) {
       case ANY_ON: cur->Set_AnyNumerics(true); m.any = true; break;
       case ST_RKF45: case ST_RK4: case ST_MSADAMS: m.stepper = op - ST_RKF45; cur->Set_GSL_step(steptype(m.stepper)); break;
       case ADAPT_TOGGLE: m.adaptive = !m.adaptive; cur->Set_AdaptiveStep(m.adaptive); break;
+      case HMIN_TOGGLE: m.hmin_raised = !m.hmin_raised; if (m.hmin_raised) cur->Set_h_min(1e-3); else { cur->Set_h_min(std::numeric_limits<double>::min()); cur->Set_h(1e-4); } break;
       case TOL_TOGGLE: m.tight = !m.tight; cur->Set_rel_error(m.tight ? 1e-10 : 1e-8); cur->Set_abs_error(m.tight ? 1e-10 : 1e-8); break;
       case MOVE_CTOR: {
         std::unique_ptr<Probe> n(new Probe(std::move(*cur)));
@@ -130,7 +136,7 @@ int main(int argc, char** argv) {
       if (need_evolves && L < depth) continue;
       std::vector<int> h(L, 0);
       while (true) {
-        int nev = 0; for (int o : h) if (o <= EV7) nev++;
+        int nev = 0; for (int o : h) if (o <= EVS) nev++;
         bool take = nev >= need_evolves;
         if (take && (caseno++ % ar.nshards) == ar.shard) {
           if (std::chrono::duration<double>(std::chrono::steady_clock::now() - t0).count() > deadline) { not_exhaustive(); info("deadline", "hit at depth " + std::to_string(L)); goto done; }
